@@ -1672,14 +1672,32 @@ package main
 //@   ensures grouped: old(glob(wg)) ==> glob(wg)
 //@   at before call pBlock#0: LB = glob(vardefs)
 
-//@ func parseParams
+//@ func psNewTypeVar
 //@   trusted
-//@   modifies maps glob:vardefs
 //@   panics may
-//@   ensures live: live(ps) ==> live(result.E0) && samebuf(result.E0, ps)
+//@   note abstract: a fresh type variable from the inference context's generator (a function value)
+
+// the parameters of a let / fun: `()` is no parameter; `(x: T)` and `x` define x in the current scope, in order
+//@ func parseParam
+//@   props C07 C03
+//@   modifies maps glob:vardefs
+//@   requires live: live(ps)
+//@   panics may
+//@   ensures a-variable-is-defined-in-the-scope-given: is(Param_PVar, result.E1) ==> glob(vardefs) == def_var(old(glob(vardefs)), ps.scope, Param_PVar_Value(result.E1).Name, Param_PVar_Value(result.E1))
+//@   ensures unit-defines-nothing: is(Param_PUnit, result.E1) ==> glob(vardefs) == old(glob(vardefs))
+//@   ensures kept: live(result.E0) && samebuf(result.E0, ps) && result.E0.scope == ps.scope && sameoff(result.E0.offsideCol, ps.offsideCol)
+//@   ensures progress: result.E0.tkz.current.begin > ps.tkz.current.begin
+
+//@ func parseParams
+//@   props C07 C03
+//@   modifies maps glob:vardefs
+//@   requires live: live(ps)
+//@   panics may
+//@   decreases rem(ps)
+//@   ensures live: live(result.E0) && samebuf(result.E0, ps)
 //@   ensures scope-kept: result.E0.scope == ps.scope && sameoff(result.E0.offsideCol, ps.offsideCol)
 //@   ensures defined-in-the-scope-given: glob(vardefs) == params_log(old(glob(vardefs)), ps.scope, result.E1)
-//@   note abstract: the parameter list of a let / fun (defines the parameters in the current scope)
+//@   ensures progress: result.E0.tkz.current.begin > ps.tkz.current.begin
 
 //@ func parseBlock
 //@   props C06 C08 C09
@@ -1987,26 +2005,42 @@ package main
 //@   at before call scLookupRecFac#0: R = 2
 
 //@ func parseSliceExpr
-//@   trusted
+//@   props C08 C16
+//@   param pExpr: like parseExprWithPrec(_, #1, $0)
 //@   modifies maps glob:wg glob:vardefs
+//@   requires live: live(ps)
+//@   requires offside-stack-non-empty: len(ps.offsideCol) >= 1
 //@   panics may
-//@   ensures live: live(ps) ==> live(result.E0) && samebuf(result.E0, ps)
-//@   ensures kept: live(ps) ==> result.E0.scope == ps.scope && sameoff(result.E0.offsideCol, ps.offsideCol)
+//@   ensures live: live(result.E0) && samebuf(result.E0, ps)
+//@   ensures kept: result.E0.scope == ps.scope && sameoff(result.E0.offsideCol, ps.offsideCol)
 //@   ensures grouped: old(glob(wg)) ==> glob(wg)
+//@   ensures a-slice-literal: ps.tkz.current.ttype == New_TokenType_LSBRACKET && is(Expr_ESlice, result.E1) && len(Expr_ESlice_Value(result.E1)) >= 1
+//@   inline-call ParseList2
+//@   loop ParseList2/0:
+//@     invariant kept: live(ps) && samebuf(ps, old(ps)) && ps.scope == old(ps).scope && sameoff(ps.offsideCol, old(ps).offsideCol)
+//@     invariant grouped: old(glob(wg)) ==> glob(wg)
+//@     invariant some: len(res) >= 1
+
 //@ func parseUSPropAcc
-//@   trusted
+//@   props C08 C16
 //@   modifies maps glob:wg glob:vardefs
+//@   requires live: live(ps)
 //@   panics may
-//@   ensures live: live(ps) ==> live(result.E0) && samebuf(result.E0, ps)
-//@   ensures kept: live(ps) ==> result.E0.scope == ps.scope && sameoff(result.E0.offsideCol, ps.offsideCol)
+//@   ensures live: live(result.E0) && samebuf(result.E0, ps)
+//@   ensures kept: result.E0.scope == ps.scope && sameoff(result.E0.offsideCol, ps.offsideCol)
 //@   ensures grouped: old(glob(wg)) ==> glob(wg)
+//@   ensures progress: result.E0.tkz.current.begin > ps.tkz.current.begin
+
 //@ func parseGoEval
-//@   trusted
+//@   props C08 C16
 //@   modifies maps glob:wg glob:vardefs
+//@   requires live: live(ps)
 //@   panics may
-//@   ensures live: live(ps) ==> live(result.E0) && samebuf(result.E0, ps)
-//@   ensures kept: live(ps) ==> result.E0.scope == ps.scope && sameoff(result.E0.offsideCol, ps.offsideCol)
+//@   ensures live: live(result.E0) && samebuf(result.E0, ps)
+//@   ensures kept: result.E0.scope == ps.scope && sameoff(result.E0.offsideCol, ps.offsideCol)
 //@   ensures grouped: old(glob(wg)) ==> glob(wg)
+//@   ensures progress: result.E0.tkz.current.begin > ps.tkz.current.begin
+
 
 //@ func psIsNeighborLT
 //@   props C08
@@ -2022,11 +2056,15 @@ package main
 //@   modifies maps
 //@   panics may
 //@ func parseFAAfterDot
-//@   trusted
+//@   props C08 C16
 //@   modifies maps glob:vardefs
+//@   requires live: live(ps)
 //@   panics may
-//@   ensures live: live(ps) ==> live(result.E0) && samebuf(result.E0, ps)
+//@   decreases rem(ps)
+//@   ensures live: live(result.E0) && samebuf(result.E0, ps)
 //@   ensures kept: result.E0.scope == ps.scope && sameoff(result.E0.offsideCol, ps.offsideCol)
+//@   ensures progress: result.E0.tkz.current.begin > ps.tkz.current.begin
+
 
 // a reference: `<` opens a type-argument list only when it follows the identifier without a blank; a spaced
 // `<` is left to the operator parser (the reference ends right after the identifier)
